@@ -128,6 +128,14 @@ def _structure(out, rfi, obs):
     obs.claim('model_identity', bool(np.allclose(bm, sc - auto_fit, rtol=1e-9, atol=1e-9 * max(1.0, auto_fit))),
               'beads_model(x) != std_crv(x) - autofluorescence')
     obs.claim('names', list(out[4]) == ['m', 'b', 'fl_mef_auto'] and isinstance(out[3], str), 'parameter names')
+    # channel numbers are integers: the curve takes them as it takes floats (and leaves the caller's array alone)
+    for dt in (np.int64, np.uint16):
+        gi = np.array([1, 2, 10, 255, 1023], dtype=dt)
+        keep = gi.copy()
+        vi = call(std_crv, gi)
+        vf = np.asarray(std_crv(gi.astype(float)), dtype=float)
+        obs.claim('params_consistent', not raised(vi) and bool(np.allclose(np.asarray(vi, dtype=float), vf, rtol=1e-12)) and np.array_equal(gi, keep),
+                  lambda: 'std_crv on an integer array (%s): %r, on the same values as floats %r' % (np.dtype(dt).name, vi, vf.tolist()))
     return sc, grid
 
 
